@@ -30,9 +30,12 @@ func VerifC08NonceRemovalOrder() {
 	a := verifrt.Choice("first", n)
 	b := verifrt.Choice("second", n)
 	verifrt.Assume(a != b)
+	// two independent executions of the same block from the same state
+	l := mk()
 	ctx1 := verifrt.NewContext(10, 1700000000, "exocoretestnet_233-1")
-	k.SetNonce(ctx1, types.ValidatorNonce{Validator: val, NonceList: mk()})
-	ctx2, _ := ctx1.CacheContext()
+	ctx2 := verifrt.NewContext(10, 1700000000, "exocoretestnet_233-1")
+	k.SetNonce(ctx1, types.ValidatorNonce{Validator: val, NonceList: l})
+	k.SetNonce(ctx2, types.ValidatorNonce{Validator: val, NonceList: l})
 	k.RemoveNonceWithFeederIDForValidators(ctx1, uint64(a+1), []string{val})
 	k.RemoveNonceWithFeederIDForValidators(ctx1, uint64(b+1), []string{val})
 	k.RemoveNonceWithFeederIDForValidators(ctx2, uint64(b+1), []string{val})
